@@ -78,7 +78,7 @@ SIZES = {"quick": {"deploy": 160, "pause": 160, "rollout": 128, "own": 240, "hea
          "thorough": {"deploy": 2000, "pause": 2000, "rollout": 1500, "own": 2000, "health": 1500, "snap": 2000,
                       "duelown": 30000, "dueldrain": 30000, "duelprobe": 15000}}
 SIMS = {"quick": 30, "thorough": 500}
-MC_TIMEOUT = {"quick": 240, "thorough": 1500}
+MC_TIMEOUT = {"quick": 240, "thorough": 2400}
 DTRACE_LIMIT = {"quick": 96, "thorough": None}   # scenarios validated against the design model per run
 
 
